@@ -128,6 +128,8 @@ def arg_list(tl, op, atoms):
     """The iterable argument of extend / += / slice assignment: a plain list, or (trailing "loose" marker) a deep
     copy of the trait list itself -- same class, same validator / trait, no owner -- filled with exactly these raw
     items through the built-in base class, so that nothing has validated them."""
+    if op[-1] == "self":
+        return tl                          # the receiver itself: tl.extend(tl), tl += tl, tl[a:b] = tl
     items = [val(a) for a in atoms]
     if op[-1] == "loose" and isinstance(tl, list):
         c = copy.deepcopy(tl)
@@ -139,6 +141,30 @@ def arg_list(tl, op, atoms):
     if op[-1] == "tuple":
         return tuple(items)
     return items
+
+
+def multiplier(op):
+    """["Imul", n] an int; ["Imul", n, "bool"|"numpy"] the same number as a bool / numpy integer;
+    ["ImulQ", p, q, "float"|"fraction"|"decimal"] the number p/q (q a power of two: exact) as a non-integer type"""
+    if op[0] == "Imul":
+        kind = op[2] if len(op) > 2 else "int"
+        if kind == "bool":
+            return bool(op[1])
+        if kind == "numpy":
+            try:
+                import numpy
+                return numpy.int64(op[1])
+            except ImportError:
+                return op[1]
+        return op[1]
+    p, q, kind = op[1], op[2], op[3]
+    if kind == "fraction":
+        from fractions import Fraction
+        return Fraction(p, q)
+    if kind == "decimal":
+        from decimal import Decimal
+        return Decimal(p) / Decimal(q)
+    return float(p) / float(q)
 
 
 def apply_op(tl, op):
@@ -160,8 +186,8 @@ def apply_op(tl, op):
         r = operator.iadd(tl, arg_list(tl, op, op[1]))
         if r is not tl:
             raise RuntimeError("+= returned a new object")
-    elif k == "Imul":
-        r = operator.imul(tl, op[1])
+    elif k in ("Imul", "ImulQ"):
+        r = operator.imul(tl, multiplier(op))
         if r is not tl:
             raise RuntimeError("*= returned a new object")
     elif k == "Insert":
